@@ -34,6 +34,10 @@ FIELDS = [
     ("C\tA\t+\tB\t-\t1\t*", None, "overlap", "cigar1"), ("C\tA\t+\tB\t-\t1\t*", None, "to_orient", "orient"),
     ("E\t*\tA+\tB-\t0\t1\t0\t1\t*", None, "sid2", "oref2"), ("S\tA\t10\t*", None, "slen", "uint"),
     ("H\tVN:Z:1.0\txz:Z:a", None, "xz", "Z"), ("L\tA\t+\tB\t-\t*\tMQ:i:3", None, "MQ", "i"),
+    ("E\t*\tA+\tB-\t0\t1\t0\t1\t*\txi:i:1", None, "xi", "i"), ("G\tg\tA+\tB-\t5\t*\txz:Z:a", None, "xz", "Z"),
+    ("O\to\tA+ B-\txf:f:1.5", None, "xf", "f"), ("U\tu\tA B\txj:J:[1]", None, "xj", "J"),
+    ("F\tA\tr+\t0\t1\t0\t1\t*\txa:A:x", None, "xa", "A"), ("L\tA\t+\tB\t-\t*\txb:B:c,1", None, "xb", "B"),
+    ("P\tp\tA+,B-\t*\txh:H:1A", None, "xh", "H"),
     # a custom record in which a would-be tag is a positional field (its value does not fit the datatype it
     # names): the name is free for a new tag
     ("X\tabc\txi:i:bad\tyy:i:1", "gfa2", "xi", "Z"),
